@@ -2,7 +2,7 @@
 LimbLoops.tla on the real library with exact-size canary buffers and compares the complete memory image."""
 import numpy as np
 
-from lib import Buf, FFT64, NTT120, MASK_NONE, MASK_GENERIC
+from lib import Buf, FFT64, NTT120, MASK_NONE, MASK_GENERIC, ro
 
 GENERIC = {"zero", "copy", "negate", "add", "sub", "rotate", "automorphism"}
 ARITY = {"zero": 0, "copy": 1, "negate": 1, "rotate": 1, "automorphism": 1, "add": 2, "sub": 2,
@@ -127,8 +127,9 @@ def run_case(L, mods, c, n, modkind, rng, bits=60, fill=0xC3, off=0, data_seed=N
         eview[c["rb"]][limb * sl["r"]:limb * sl["r"] + n] = acc
     desc = "%s[%s] N=%d sizes=(%d,%d,%d) strides=(%d,%d,%d) alias=%s p=%d" % (
         op, modkind, n, rs, as_, bs, sl["r"], sl["a"], sl["b"], c["alias"], p)
-    call_op(L, mods.get(n, modkind), op, p, bufs[c["rb"]], rs, sl["r"], bufs[c["ab"]], as_, sl["a"],
-            bufs[c["bb"]], bs, sl["b"])
+    with ro(*[bufs[b] for b in bufs if b != c["rb"] or rs == 0]):      # buffers the call only reads
+        call_op(L, mods.get(n, modkind), op, p, bufs[c["rb"]], rs, sl["r"], bufs[c["ab"]], as_, sl["a"],
+                bufs[c["bb"]], bs, sl["b"])
     result = [bufs[c["rb"]].i64[i * sl["r"]:i * sl["r"] + n].copy() for i in range(rs)] if want_result else None
 
     def ret(why):
